@@ -41,13 +41,15 @@ pass-through `fwd`):
 * `C13_two_no_deadlock` — **deadlock freedom under `PoolOK`**: a reachable configuration without enabled step is
   final (every schedule, capacity, batch size, `num_steps`, failing inputs / `iterator_fn`, FIFO or any-order pool);
 * `C13_two_stuck_no_unstarted` — under `PoolOK` no task is left unstarted in a quiescent configuration;
-* `C13_two_fifo`, `C13_two_output_exactly_once`, `C13_two_second_level_exactly_once_partial` — conservation, the part
-  proved: inside EACH queue nothing is duplicated, dropped or reordered (`produced = dequeued ++ q`); every element
+* `C13_two_fifo`, `C13_two_output_exactly_once`, `C13_two_second_level_exactly_once_partial`,
+  `C13_two_first_level_exactly_once_partial` — conservation, the part proved: inside EACH queue nothing is duplicated, dropped or reordered (`produced = dequeued ++ q`); every element
   put into the OUTPUT queue is, exactly once, delivered to the caller / dropped by the caller's final raise or early
   stop / still queued; what the caller holds ++ dropped ++ queued is exactly what the second-level tasks have put, and
   what a task has put is — in order, without repetition — part of `iterator_fn`'s outputs for the values the task pulled
-  from the input queue (missing for the full statement: the consumer side of the INPUT queue — pulled values vs.
-  `Q1.dequeued` through the shared cache —, the first level, and equality instead of inclusion in clean runs).
+  from the input queue; the input queue's `produced` is exactly what the first-level tasks have put, which is — in
+  order, without repetition — part of the prefix of its input the task has pulled (missing for the full statement: the
+  consumer side of the INPUT queue — the values the second-level tasks pulled vs. `Q1.dequeued` through the shared
+  cache — and equality instead of inclusion in runs without failure / early stop, with empty queues at the end).
 
 NOT proved (full statements, kept visible):
 * conservation across both levels: `theorem C13_two_multiset : Reachable F c0 c → c.allDone → delivered outputs of the
@@ -361,6 +363,42 @@ theorem C13_two_second_level_exactly_once_partial {cap1 cap2 bm1 bm2 mw : Nat} {
   have := hv.bal t ht hr
   rw [List.append_assoc] at this
   exact (List.sublist_append_left _ _).trans this
+
+/-- **first level, exactly-once on the producer side** (every schedule, failing inputs and stops included) — a
+`_partial` of conservation across both levels: in every reachable configuration the values in the INPUT queue's
+`produced` are, as a multiset, exactly what the first-level tasks have put; for every first-level task what it has put
+is a sublist of what it pulled from its input (a pulled value is put at most once, in order; it is dropped only when the
+queue is done), and what it pulled is a PREFIX of the values of its input iterator. -/
+theorem C13_two_first_level_exactly_once_partial {cap1 cap2 bm1 bm2 mw : Nat} {ns : Option Nat} {fwd ff : Bool}
+    {inputs : List InSpec} {gens : List Nat} {c : Piter2.Cfg}
+    (h : Reachable F (initF cap1 cap2 bm1 bm2 mw ns fwd ff inputs gens) c) :
+    List.Perm (c.s1.produced.map (·.2)) (c.ths.map em1).flatten ∧
+    ∀ t ∈ c.ths, t.role = .l1 → t.emitted.Sublist t.pulled ∧ t.pulled <+: valsOf (itemsOf t.a) := by
+  have hg0 := good_initF cap1 cap2 bm1 bm2 mw ns fwd ff inputs gens
+  have h0 : L1Inv (initF cap1 cap2 bm1 bm2 mw ns fwd ff inputs gens) := by
+    have hall : ∀ t ∈ (initF cap1 cap2 bm1 bm2 mw ns fwd ff inputs gens).ths,
+        t.emitted = [] ∧ t.pulled = [] ∧ (t.role = .l1 → t.a.pc = .start) := by
+      intro t ht
+      simp only [initF, Piter2.init, List.mem_cons, List.mem_append, List.mem_map] at ht
+      rcases ht with rfl | ⟨i, _, rfl⟩ | ⟨g, _, rfl⟩ <;> simp [mkCons, mkL1, mkL2]
+    refine ⟨fun t ht hr => ?_, fun t ht hr => ?_, ?_⟩
+    · obtain ⟨e1, e2, e3⟩ := hall t ht
+      simp [e1, e2, inflight1, e3 hr, Queue.putPc]
+    · obtain ⟨e1, e2, e3⟩ := hall t ht
+      simp [e3 hr, e2]
+    · have hfl : ((initF cap1 cap2 bm1 bm2 mw ns fwd ff inputs gens).ths.map em1).flatten = [] := by
+        rw [List.flatten_eq_nil_iff]
+        intro l hl
+        obtain ⟨t, ht, rfl⟩ := List.mem_map.mp hl
+        simp [em1, (hall t ht).1]
+      rw [hfl]
+      simp [initF, Piter2.init]
+  have hv := l1inv_reachable h hg0 h0
+  refine ⟨hv.prod, fun t ht hr => ⟨(List.sublist_append_left _ _).trans (hv.bal t ht hr), ?_⟩⟩
+  have := hv.src t ht hr
+  split at this
+  · rw [this]; exact List.nil_prefix
+  · exact ⟨_, this⟩
 
 /-- test (by `decide`), non-vacuity of `C13_two_no_deadlock` and `C13_two_stuck_all_parked`: two inputs, one
 `iterator_fn` task, FIFO pool with 3 workers, both queues of capacity 1 — a complete run (100 steps) ends in a
